@@ -26,7 +26,8 @@ def run(ctx):
         "rustc-literal-escaper (escape decoding) is modelled by Model/Literal.unescape and tied by the correspondence run only",
         "unicode-ident's XID_Start / XID_Continue predicates are parameters of the lexer model (the harness takes them from the crate)",
         "Rust std: str::parse for i64/u32/f64, Ipv4Addr/Ipv6Addr::from_str, Display of addresses; inetnum Prefix::new_relaxed",
-        "the atoms of the Pratt model stand for whatever Parser::access parses as one operand; the look-ahead model "
+        "the atoms of the Pratt model stand for whatever Parser::atom parses as one atom (the postfix loop of Parser::access is modelled; "
+        "an argument list is one token, its arguments are expressions of their own); the look-ahead model "
         "(Model/LookAhead) covers atom/access/block/record/separated/f_string on token classes and is tied by the "
         "correspondence run (real parse tree vs model vs printed tree) and the generated look-ahead facts",
     ]
